@@ -101,4 +101,204 @@ theorem same_accepted_set_same_answers (c₁ c₂ : C09.Cfg) (σ₁ σ₂ : Fiel
     unfold resolvePublicKeyStore
     have : storeDoc (run c₁ {} l₁) = storeDoc (run c₂ {} l₂) := by funext rm; exact hsd rm
     rw [this]
+
+/-! ### (2) chain of custody -/
+
+/-- **Chain of custody — an invariant of ALL reachable stores.** For every history `l` of deliveries (any length, any mix of
+    valid, forged, replayed deliveries, any order) and thumbprints being collision-free:
+    (a) every stored event of every DID entered as an accepted delivery of `l` that was `Authorised` in the state reached at
+        that point — a creation signed by the key the transaction embeds and the DID is derived from, or an update whose
+        signing key is a capabilityInvocation key of a controller (the DID itself, or a controller DID active within the depth
+        bound) of the version it succeeds and of EVERY other version its prevs name;
+    (b) every DID that has any event has its accepted creation among them (an update is only ever accepted for a DID that
+        already has a version; induction over the history);
+    (c) whatever C10's `Resolve` answers — any DID, any metadata — is a stored version whose source transactions are a
+        non-empty set of stored events of that DID, each authorised as in (a), and the DID has its creation as in (b).
+    By (a)–(c) and induction on the position in the history (every authorisation refers to versions of a strictly shorter
+    prefix, which are again covered) the history of every resolvable document is authorised back to its creation. -/
+theorem chain_of_custody (c : C09.Cfg) (hinj : ∀ a b, c.thumb a = c.thumb b → a = b) (l : List Delivery) :
+    (∀ id e, e ∈ ((run c {} l).get id).events → e.doc.id = id ∧ EnteredAuthorised c l e) ∧
+    (∀ id, ((run c {} l).get id).events ≠ [] → ∃ e ∈ ((run c {} l).get id).events, EnteredAsCreation c l e) ∧
+    (∀ id rm d m, resolve (run c {} l) id rm = .ok (d, m) →
+      (d, m) ∈ ((run c {} l).get id).chain ∧ m.sourceTx ≠ [] ∧
+      (∀ r ∈ m.sourceTx, ∃ e ∈ ((run c {} l).get id).events, e.ref = r ∧ EnteredAuthorised c l e) ∧
+      ∃ e₀ ∈ ((run c {} l).get id).events, EnteredAsCreation c l e₀) := by
+  have hA := fun id e h => stored_events_authorised c hinj l id e h
+  have hB := hasCreation_all c l
+  refine ⟨hA, hB, fun id rm d m h => ?_⟩
+  have hmem := resolve_ok_mem_chain _ id rm (d, m) h
+  obtain ⟨hne, hsrc⟩ := inv_chain_sources c.store _ (run_inv c l id) (d, m) hmem
+  refine ⟨hmem, hne, fun r hr => ?_, hB id (resolve_ok_events_ne c.store _ id (run_inv c l id) rm (d, m) h)⟩
+  obtain ⟨e, he, her⟩ := hsrc r hr
+  exact ⟨e, he, her, (hA id e he).2⟩
+
+/-- the same, phrased over the inductively defined reachable stores -/
+theorem chain_of_custody_reachable (c : C09.Cfg) (hinj : ∀ a b, c.thumb a = c.thumb b → a = b) (s : Store)
+    (hs : Reachable c s) :
+    ∃ l, s = run c {} l ∧ Inv c.store (s.get "") ∧
+      ∀ id rm d m, resolve s id rm = .ok (d, m) → m.sourceTx ≠ [] ∧
+        (∀ r ∈ m.sourceTx, ∃ e ∈ (s.get id).events, e.ref = r ∧ EnteredAuthorised c l e) ∧
+        ∃ e₀ ∈ (s.get id).events, EnteredAsCreation c l e₀ := by
+  obtain ⟨l, rfl⟩ := (reachable_iff_run c s).mp hs
+  refine ⟨l, rfl, run_inv c l "", fun id rm d m h => ?_⟩
+  obtain ⟨_, h2, h3, h4⟩ := (chain_of_custody c hinj l).2.2 id rm d m h
+  exact ⟨h2, h3, h4⟩
+
+/-! ### the concrete instance (today's regenerated facts) used by the non-vacuity examples and by (4) -/
+
+def wCfg : C09.Cfg :=
+  { thumb := fun k => k, didThumb := fun k => "D" ++ k, maxDepth := Facts.C09.maxControllerDepth,
+    validators := Facts.C09.networkValidators, vmNilJwkErr := Facts.C09.verifyThumbprintGuardsNilJwk,
+    findKeyNilJwkErr := Facts.C09.findKeyGuardsNilJwk, store := cfgOf (fun _ l => l) Facts.C10.mergeSortedFields }
+/-- the same node with Go ranging over its maps in the opposite order -/
+def wCfgRev : C09.Cfg := { wCfg with store := cfgOf (fun _ l => l.reverse) Facts.C10.mergeSortedFields }
+
+def vmOf (did k : String) : NVM := { id := did ++ "#" ++ k, pfx := did, frag := k, key := .key k }
+/-- a document of DID `D<k>` listing `keys` as verification methods and `ci` for capabilityInvocation -/
+def docOf (k : String) (keys ci : List String) (ctrl : List String := []) : NDoc :=
+  { id := "did:nuts:D" ++ k, idID := "D" ++ k, controllers := ctrl,
+    vms := keys.map (vmOf ("did:nuts:D" ++ k)), capInv := ci.map (vmOf ("did:nuts:D" ++ k)) }
+def createTx (ref : Nat) (k : String) (t : Nat := 10) : Tx :=
+  { ref := ref, clock := 0, sigTime := t, prevs := [], payloadHash := s!"p{ref}", embedded := some k, signer := k }
+def updateTx (ref : Nat) (prevs : List Nat) (did k : String) (t : Nat := 20) : Tx :=
+  { ref := ref, clock := 1, sigTime := t, prevs := prevs, payloadHash := s!"p{ref}",
+    kid := { holder := did, id := did ++ "#" ++ k }, signer := k }
+
+/-- creation of the controller `Dc` -/
+def c100 : Delivery := (createTx 100 "c", some (docOf "c" ["c"] ["c"]))
+/-- creation of `Dd`, controlled by itself and by `Dc` -/
+def d110 : Delivery := (createTx 110 "d", some (docOf "d" ["d"] ["d"] ["did:nuts:Dc", "did:nuts:Dd"]))
+/-- `Dd` deactivates itself (prevs name its creation) -/
+def d211 : Delivery := (updateTx 211 [110] "did:nuts:Dd" "d" 20, some (docOf "d" [] [] []))
+/-- the controller `Dc` updates `Dd`; the prevs name only `Dc`'s creation (which resolves the kid) and no version of `Dd` -/
+def u500 : Delivery := (updateTx 500 [100] "did:nuts:Dc" "c" 40, some (docOf "d" ["d"] ["d"] ["did:nuts:Dc"]))
+/-- a stranger's key tries to take `Dd` over -/
+def forged : Delivery := (updateTx 600 [110] "did:nuts:Dd" "zz" 50, some (docOf "d" ["zz"] ["zz"] []))
+/-- a payload that does not parse -/
+def garbage : Delivery := (createTx 700 "q", none)
+
+/-- node 1: valid, forged (too early and again later), replayed, unparsable deliveries interleaved -/
+def hist₁ : List Delivery := [c100, forged, d110, c100, forged, u500, garbage, d211, u500]
+/-- node 2: the same accepted transactions in another order, other rejected traffic in between -/
+def hist₂ : List Delivery := [d110, garbage, c100, u500, d211, forged]
+
+theorem refNames_hist₁ : RefNames hist₁ := by
+  intro p hp q hq h
+  simp only [hist₁, List.mem_cons, List.mem_nil_iff, or_false] at hp hq
+  rcases hp with rfl | rfl | rfl | rfl | rfl | rfl | rfl | rfl | rfl <;>
+    rcases hq with rfl | rfl | rfl | rfl | rfl | rfl | rfl | rfl | rfl <;>
+      first | rfl | exact absurd h (by decide)
+
+-- (1) is not vacuous: the history has accepted, forged, replayed and unparsable deliveries; the DID's event list holds
+-- exactly the accepted ones (C10's order), the rejected ones left no trace
+example : outcomes wCfg {} hist₁ =
+    ["ok", "err:sig:key:not-found", "ok", "ok", "err:sig:key:key-not-found", "ok", "err:unmarshal", "ok", "ok"] := by decide
+example : ((run wCfg {} hist₁).get "did:nuts:Dd").events.map (·.ref) = [110, 211, 500] ∧
+    acceptedRefs wCfg {} hist₁ = [100, 110, 100, 500, 211, 500] := by decide
+example : ((run wCfg {} hist₁).get "did:nuts:Dd").events.map (·.ref) =
+    ((run wCfg {} [c100, d110, u500, d211]).get "did:nuts:Dd").events.map (·.ref) := by decide
+
+
+/-- the event a delivery contributes when it is accepted -/
+def evOf (p : Delivery) : Event := match p.2 with | some d => eventOf p.1 d | none => default
+
+theorem accepted_hist₁ : accepted wCfg {} hist₁ = [evOf c100, evOf d110, evOf c100, evOf u500, evOf d211, evOf u500] := by rfl
+theorem accepted_hist₂ : accepted wCfgRev {} hist₂ = [evOf d110, evOf c100, evOf u500, evOf d211] := by rfl
+
+-- (1)/(3) are not vacuous: two nodes, different delivery orders, different rejected traffic, different map iteration
+-- orders — same accepted set, hence (by the theorem) the same answers
+example : RefNames hist₁ ∧ (∀ e, e ∈ accepted wCfg {} hist₁ ↔ e ∈ accepted wCfgRev {} hist₂) := by
+  refine ⟨refNames_hist₁, fun e => ?_⟩
+  rw [accepted_hist₁, accepted_hist₂]
+  simp only [List.mem_cons, List.mem_nil_iff, or_false]
+  constructor <;> intro h
+  · rcases h with h | h | h | h | h | h <;> simp [h]
+  · rcases h with h | h | h | h <;> simp [h]
+example : (∀ f l, ((fun (_ : Field) (l : List Entry) => l) f l).Perm l) ∧
+    (∀ f l, ((fun (_ : Field) (l : List Entry) => l.reverse) f l).Perm l) :=
+  ⟨fun _ _ => List.Perm.refl _, fun _ l => List.reverse_perm l⟩
+
+/-! ### the seam: what `RefNames` is needed for -/
+
+/-- the same ref delivered with other content -/
+def c100' : Delivery := (createTx 100 "c", some (docOf "c" ["c", "y"] ["c"]))
+
+/-- **Finding about the models (seam C09/C10).** C09's `Tx.ref` is an unconstrained number and `deliver` answers ok for a
+    second, different, validly signed transaction carrying a ref the DID already has — C10's `add` then keeps the first
+    event and drops the second without a word (`contains` compares refs only, `fact_equal_by_ref`). So without the contract
+    `RefNames` ("the ref is the hash of the signed transaction") an ACCEPTED delivery need not be STORED: here two
+    deliveries are accepted, one event is stored, and `store_holds_exactly_the_accepted` fails for the second one. -/
+theorem ref_collision_accepted_but_not_stored :
+    outcomes wCfg {} [c100, c100'] = ["ok", "ok"] ∧ (accepted wCfg {} [c100, c100']).length = 2 ∧
+    ((run wCfg {} [c100, c100']).get "did:nuts:Dc").events.length = 1 ∧ ¬ RefNames [c100, c100'] := by
+  refine ⟨by decide, by decide, by decide, fun h => ?_⟩
+  have := h c100 (by simp) c100' (by simp) rfl
+  have h2 := congrArg (fun p : Delivery => (p.2.map (fun d => d.vms.length))) this
+  revert h2
+  decide
+
+/-! ### (4) is acceptance independent of the delivery order among causally consistent orders?  No. -/
+
+/-- the statement one would like: two causally consistent delivery orders of the same deliveries accept the same transactions -/
+def AcceptanceOrderIndependentStmt : Prop :=
+  ∀ (c : C09.Cfg) (l₁ l₂ : List Delivery), l₁.Perm l₂ → RefNames l₁ → causal l₁ = true → causal l₂ = true →
+    ∀ r, r ∈ acceptedRefs c {} l₁ ↔ r ∈ acceptedRefs c {} l₂
+
+/-- **Smallest witness found (4 deliveries; with 3 every update's versions, controllers and key are pinned by its prevs).**
+    `Dd` (controlled by itself and by `Dc`) deactivates itself (211, prevs = its creation) while its controller `Dc` updates it
+    (500) naming only `Dc`'s own creation as prev: no prev of 500 names a version of `Dd`, so `handleUpdateDIDDocument` falls
+    back to the LATEST version the node happens to hold (`currentVersion`, `fact_update_steps`/`updateFallsBackToLatest`).
+    Delivered after the deactivation, 500 is refused (the latest version has no controller left); delivered before it, 500 is
+    accepted and so is 211.  Both orders deliver every prev before its successor.  The two nodes end with different accepted
+    sets — for good: no later delivery order repairs it — and answer `Resolve` differently. -/
+theorem acceptance_depends_on_delivery_order :
+    [c100, d110, d211, u500].Perm [c100, d110, u500, d211] ∧ RefNames [c100, d110, d211, u500] ∧
+    causal [c100, d110, d211, u500] = true ∧ causal [c100, d110, u500, d211] = true ∧
+    outcomes wCfg {} [c100, d110, d211, u500] = ["ok", "ok", "ok", "err:update:not-signed-by-controller"] ∧
+    outcomes wCfg {} [c100, d110, u500, d211] = ["ok", "ok", "ok", "ok"] ∧
+    acceptedRefs wCfg {} [c100, d110, d211, u500] = [100, 110, 211] ∧
+    acceptedRefs wCfg {} [c100, d110, u500, d211] = [100, 110, 500, 211] ∧
+    (match resolve (run wCfg {} [c100, d110, d211, u500]) "did:nuts:Dd" (some { allowDeactivated := true }) with
+      | .ok (d, m) => (m.sourceTx, controllersOf d) | _ => ([], [])) = ([211], []) ∧
+    (match resolve (run wCfg {} [c100, d110, u500, d211]) "did:nuts:Dd" (some { allowDeactivated := true }) with
+      | .ok (d, m) => (m.sourceTx, controllersOf d) | _ => ([], [])) = ([500, 211], ["did:nuts:Dc"]) := by
+  refine ⟨((List.Perm.swap _ _ _).cons _).cons _, ?_, by decide, by decide, by decide, by decide, by decide, by decide,
+    by decide, by decide⟩
+  intro p hp q hq h
+  simp only [List.mem_cons, List.mem_nil_iff, or_false] at hp hq
+  rcases hp with rfl | rfl | rfl | rfl <;> rcases hq with rfl | rfl | rfl | rfl <;>
+    first | rfl | exact absurd h (by decide)
+
+theorem acceptance_order_independent_false : ¬ AcceptanceOrderIndependentStmt := by
+  intro h
+  obtain ⟨hp, hr, h1, h2, _, _, _, _, _, _⟩ := acceptance_depends_on_delivery_order
+  have := (h wCfg _ _ hp hr h1 h2 500).mpr (by decide)
+  revert this
+  decide
+
+/-- creation of `De`, self-controlled, which also publishes `Dc`'s key `c` as one of its verification methods -/
+def e120 : Delivery := (createTx 120 "e", some (docOf "e" ["e", "c"] ["e"]))
+/-- `Dd'`: controlled by `Dc` only -/
+def d130 : Delivery := (createTx 130 "f", some (docOf "f" ["f"] [] ["did:nuts:Dc"]))
+/-- `Dc` rotates its key away from `c` / `Dc` is deactivated -/
+def rot200 : Delivery := (updateTx 200 [100] "did:nuts:Dc" "c" 20, some (docOf "c" ["x"] ["x"]))
+def deact300 : Delivery := (updateTx 300 [100] "did:nuts:Dc" "c" 30, some (docOf "c" [] []))
+/-- update of `Df` signed with `c` under the alias kid `De#c`; the prevs name no transaction of `Dc`, so the controller is
+    looked up by SIGNING TIME (the other fallback, `fact_ambassador_controller_resolution`) -/
+def u410 : Delivery := (updateTx 410 [130, 120] "did:nuts:De" "c" 40, some (docOf "f" ["f"] ["f"] ["did:nuts:Dc"]))
+
+-- the second source of order dependence: the signing-time controller fallback reads the controller's versions the node
+-- happens to hold.  After the controller ROTATED the key away the update is refused, before it is accepted …
+example : outcomes wCfg {} [c100, d130, e120, rot200, u410] = ["ok", "ok", "ok", "ok", "err:update:not-signed-by-controller"] ∧
+    outcomes wCfg {} [c100, d130, e120, u410, rot200] = ["ok", "ok", "ok", "ok", "ok"] ∧
+    causal [c100, d130, e120, rot200, u410] = true ∧ causal [c100, d130, e120, u410, rot200] = true := by decide
+-- … whereas after the controller was DEACTIVATED the update is accepted in either order: by-time resolution skips the
+-- deactivated latest version and answers the older active one — exactly the open finding
+-- C09:accepted-update-by-key-of-deactivated-controller-after-its-deactivation (same fallback, same root)
+example : outcomes wCfg {} [c100, d130, e120, deact300, u410] = ["ok", "ok", "ok", "ok", "ok"] ∧
+    outcomes wCfg {} [c100, d130, e120, u410, deact300] = ["ok", "ok", "ok", "ok", "ok"] := by decide
+-- … and a controller whose creation arrives late: refused, although every prev of 410 was delivered before it
+example : outcomes wCfg {} [d130, e120, u410, c100] = ["ok", "ok", "err:update:not-signed-by-controller", "ok"] ∧
+    outcomes wCfg {} [c100, d130, e120, u410] = ["ok", "ok", "ok", "ok"] ∧ causal [d130, e120, u410, c100] = true := by decide
+
 end Nuts.Compose.Did.Props
